@@ -1110,9 +1110,20 @@ class TwoDSpectrumBase(DataSaveable):
             flag_saved = self.current_dtype
         else:
             flag_saved = [self.current_dtype, self.current_tag]
+        # a refused addition leaves the response as it was, also the first
+        # one, which prepares the storage before it looks at the data
+        storage_saved = getattr(self, "_d__data", None)
+        initialized_saved = self.storage_initialized
+        resolution_saved = self.storage_resolution
         try:
             self._add_data_to_cell(data, resolution=resolution,
                                    dtype=dtype, tag=tag)
+        except Exception:
+            if not initialized_saved:
+                self._d__data = storage_saved
+                self.storage_initialized = initialized_saved
+                self.storage_resolution = resolution_saved
+            raise
         finally:
             self.set_data_flag(flag_saved)
 
